@@ -369,11 +369,11 @@ def compare_region(ctx, e, r, text):
 
 class Read(Relation):
     name = 'C10.read'
-    examples = {'quick': 400, 'thorough': 6000}
+    examples = {'quick': 400, 'thorough': 2500}
     shards = {'quick': 8, 'thorough': 16}
 
     def strategy(self, tier):
-        return ds9_file(12 if tier == 'quick' else 40)
+        return ds9_file(12 if tier == 'quick' else 30)
 
     def check(self, afile, ctx):
         from astropy.utils.exceptions import AstropyUserWarning
